@@ -901,8 +901,10 @@ func isRef(t types.Type) bool {
 type mutexMethod struct {
 	Pkg, Type, Method string
 	Touches, Writes   bool
-	Lock              string // LkNone | LkLock | LkRLock
+	Lock              string // LkNone | LkLock | LkRLock | LkHeld (first statement; LkHeld: unexported helper, every caller holds the lock)
 	DeferUnlock       bool
+	ReadsLocked       bool // every read of guarded state happens under the shared or the exclusive lock
+	WritesLocked      bool // every write of guarded state happens under the exclusive lock
 }
 
 func isMutexType(t types.Type) string {
@@ -1313,6 +1315,22 @@ func main() {
 			mutable[w.Type+"#"+w.Field] = true
 		}
 	}
+	// lock discipline: for every method of a type with a mutex, which lock is held (none / shared / exclusive) at each
+	// access to a field that is mutated after construction, following calls to the type's own unexported helpers:
+	// a helper's accesses are covered by the weakest lock its callers hold at their call sites
+	type lockAccess struct {
+		write  bool
+		state  int // 0 none, 1 shared (RLock), 2 exclusive (Lock)
+		helper string
+	}
+	type methodLocks struct {
+		mi       methodInfo
+		mu       string
+		accesses []lockAccess
+		entry    int // lock state guaranteed by the callers (helpers), 0 for exported / externally called methods
+	}
+	mlocks := map[string]*methodLocks{} // "pkg|Type.Method"
+	mkey := func(m methodInfo) string { return rel(m.p.PkgPath) + "|" + m.recv.Obj().Name() + "." + m.fd.Name.Name }
 	for _, m := range methods {
 		st, ok := m.recv.Underlying().(*types.Struct)
 		if !ok {
@@ -1329,27 +1347,225 @@ func main() {
 		}
 		tn := typeName(m.recv)
 		rid := recvIdent(m.fd)
-		mm := mutexMethod{Pkg: rel(m.p.PkgPath), Type: m.recv.Obj().Name(), Method: m.fd.Name.Name}
-		mm.Lock, mm.DeferUnlock = lockPrefix(m.p.TypesInfo, m.fd, mu)
-		if rid != nil {
-			ro := m.p.TypesInfo.Defs[rid]
-			ast.Inspect(m.fd.Body, func(n ast.Node) bool {
-				if sel, ok := n.(*ast.SelectorExpr); ok {
-					if id, ok := sel.X.(*ast.Ident); ok && m.p.TypesInfo.Uses[id] == ro && sel.Sel.Name != mu {
-						if mutable[tn+"#"+sel.Sel.Name] {
-							mm.Touches = true
+		ml := &methodLocks{mi: m, mu: mu}
+		mlocks[mkey(m)] = ml
+		if rid == nil {
+			continue
+		}
+		info := m.p.TypesInfo
+		ro := info.Defs[rid]
+		isRecvSel := func(e ast.Expr) (*ast.SelectorExpr, bool) {
+			sel, ok := ast.Unparen(e).(*ast.SelectorExpr)
+			if !ok {
+				return nil, false
+			}
+			id, ok := ast.Unparen(sel.X).(*ast.Ident)
+			return sel, ok && info.Uses[id] == ro
+		}
+		// selectors recv.f in write position
+		writeSel := map[*ast.SelectorExpr]bool{}
+		markWrite := func(e ast.Expr) {
+			for {
+				e = ast.Unparen(e)
+				if sel, ok := isRecvSel(e); ok {
+					writeSel[sel] = true
+					return
+				}
+				switch x := e.(type) {
+				case *ast.SelectorExpr:
+					e = x.X
+				case *ast.IndexExpr:
+					e = x.X
+				case *ast.StarExpr:
+					e = x.X
+				case *ast.SliceExpr:
+					e = x.X
+				default:
+					return
+				}
+			}
+		}
+		ast.Inspect(m.fd.Body, func(n ast.Node) bool {
+			switch x := n.(type) {
+			case *ast.AssignStmt:
+				for _, l := range x.Lhs {
+					markWrite(l)
+				}
+			case *ast.IncDecStmt:
+				markWrite(x.X)
+			case *ast.CallExpr:
+				if id, ok := ast.Unparen(x.Fun).(*ast.Ident); ok {
+					if b, ok := info.Uses[id].(*types.Builtin); ok && (b.Name() == "delete" || b.Name() == "clear" || b.Name() == "copy") && len(x.Args) > 0 {
+						markWrite(x.Args[0])
+					}
+				}
+			}
+			return true
+		})
+		state, deferred := 0, false
+		ast.Inspect(m.fd.Body, func(n ast.Node) bool {
+			switch x := n.(type) {
+			case *ast.DeferStmt:
+				// defer recv.mu.Unlock(): the lock stays until the method returns
+				if sel, ok := x.Call.Fun.(*ast.SelectorExpr); ok {
+					if inner, ok := isRecvSel(sel.X); ok && inner.Sel.Name == mu {
+						deferred = true
+						return false
+					}
+				}
+			case *ast.CallExpr:
+				if sel, ok := x.Fun.(*ast.SelectorExpr); ok {
+					if inner, ok := isRecvSel(sel.X); ok && inner.Sel.Name == mu {
+						switch sel.Sel.Name {
+						case "Lock":
+							state = 2
+						case "RLock":
+							state = 1
+						case "Unlock", "RUnlock":
+							if !deferred {
+								state = 0
+							}
+						}
+						return false
+					}
+					// call of another method of the same object
+					if id, ok := ast.Unparen(sel.X).(*ast.Ident); ok && info.Uses[id] == ro {
+						if ms := info.Selections[sel]; ms != nil && ms.Kind() == types.MethodVal {
+							if rn := namedOf(ms.Recv()); rn != nil && typeName(rn) == tn {
+								ml.accesses = append(ml.accesses, lockAccess{state: state, helper: rel(m.p.PkgPath) + "|" + rn.Obj().Name() + "." + sel.Sel.Name})
+							}
 						}
 					}
 				}
-				return true
-			})
-		}
-		for _, w := range writes {
-			if w.Pkg == mm.Pkg && w.Func == mm.Type+"."+mm.Method && w.Type == tn && w.Root == "RtRecv" {
-				mm.Writes = true
+			case *ast.SelectorExpr:
+				if sel, ok := isRecvSel(x); ok && sel.Sel.Name != mu && mutable[tn+"#"+sel.Sel.Name] {
+					ml.accesses = append(ml.accesses, lockAccess{write: writeSel[sel], state: state})
+				}
+			}
+			return true
+		})
+	}
+	// entry state of helpers: the weakest lock held at any call site; exported methods and methods referenced from
+	// outside the type's own methods start without a lock
+	callSites := map[string][]int{}
+	for _, ml := range mlocks {
+		for _, a := range ml.accesses {
+			if a.helper != "" {
+				callSites[a.helper] = append(callSites[a.helper], -1) // placeholder, resolved below
 			}
 		}
+	}
+	for iter := 0; iter < 6; iter++ {
+		for k, ml := range mlocks {
+			fo, _ := ml.mi.p.TypesInfo.Defs[ml.mi.fd.Name].(*types.Func)
+			entry := 0
+			if fo != nil && !fo.Exported() && len(callSites[k]) > 0 {
+				// every reference to the helper must be one of the recorded same-object calls
+				nrefs := 0
+				for c := range callers[fo.Origin()] {
+					_ = c
+					nrefs++
+				}
+				entry = 2
+				seen := 0
+				for _, other := range mlocks {
+					for _, a := range other.accesses {
+						if a.helper == k {
+							seen++
+							eff := a.state
+							if other.entry > eff {
+								eff = other.entry
+							}
+							if eff < entry {
+								entry = eff
+							}
+						}
+					}
+				}
+				// referenced by functions that are not methods of this object: unknown lock state
+				external := false
+				for c := range callers[fo.Origin()] {
+					isOwn := false
+					for _, other := range mlocks {
+						if of, ok := other.mi.p.TypesInfo.Defs[other.mi.fd.Name].(*types.Func); ok && of == c {
+							isOwn = true
+						}
+					}
+					if !isOwn {
+						external = true
+					}
+				}
+				if external || seen == 0 || topLevelUse[fo.Origin()] {
+					entry = 0
+				}
+			}
+			ml.entry = entry
+		}
+	}
+	type lockSummary struct{ touches, writes, readsOK, writesOK bool }
+	var summarize func(k string, depth int) lockSummary
+	summarize = func(k string, depth int) lockSummary {
+		ml := mlocks[k]
+		res := lockSummary{readsOK: true, writesOK: true}
+		if ml == nil || depth > 6 {
+			return res
+		}
+		for _, a := range ml.accesses {
+			eff := a.state
+			if ml.entry > eff {
+				eff = ml.entry
+			}
+			if a.helper != "" {
+				continue // the helper is judged on its own, with the entry state computed from all its call sites
+			}
+			res.touches = true
+			if a.write {
+				res.writes = true
+				if eff < 2 {
+					res.writesOK = false
+				}
+			} else if eff < 1 {
+				res.readsOK = false
+			}
+		}
+		return res
+	}
+	var reach func(k string, depth int, seen map[string]bool) (bool, bool)
+	reach = func(k string, depth int, seen map[string]bool) (bool, bool) {
+		ml := mlocks[k]
+		if ml == nil || seen[k] || depth > 6 {
+			return false, false
+		}
+		seen[k] = true
+		own := summarize(k, 0)
+		t, w := own.touches, own.writes
+		for _, a := range ml.accesses {
+			if a.helper != "" {
+				ht, hw := reach(a.helper, depth+1, seen)
+				t, w = t || ht, w || hw
+			}
+		}
+		return t, w
+	}
+	lockedWrites := map[string]bool{} // "pkg|Type.Method": every write of guarded state happens under the exclusive lock
+	for k, ml := range mlocks {
+		m := ml.mi
+		mm := mutexMethod{Pkg: rel(m.p.PkgPath), Type: m.recv.Obj().Name(), Method: m.fd.Name.Name}
+		mm.Lock, mm.DeferUnlock = lockPrefix(m.p.TypesInfo, m.fd, ml.mu)
+		if mm.Lock == "LkNone" && ml.entry > 0 {
+			mm.Lock = "LkHeld"
+		}
+		own := summarize(k, 0)
+		mm.Touches, mm.Writes = reach(k, 0, map[string]bool{})
+		mm.ReadsLocked, mm.WritesLocked = own.readsOK, own.writesOK
+		lockedWrites[k] = own.writes && own.writesOK
 		mms = append(mms, mm)
+	}
+	for i := range writes {
+		w := &writes[i]
+		if w.Root == "RtRecv" && lockedWrites[w.Pkg+"|"+w.Func] {
+			w.UnderLock = true
+		}
 	}
 	sort.Slice(mms, func(i, j int) bool {
 		if mms[i].Pkg != mms[j].Pkg {
@@ -1619,8 +1835,8 @@ func main() {
 		if i == len(mms)-1 {
 			sep = ""
 		}
-		fmt.Fprintf(&sb, "  {| mm_pkg := %s; mm_type := %s; mm_method := %s; mm_touches := %s; mm_writes := %s; mm_lock := %s; mm_defer_unlock := %s |}%s\n",
-			coqString(m.Pkg), coqString(m.Type), coqString(m.Method), coqBool(m.Touches), coqBool(m.Writes), m.Lock, coqBool(m.DeferUnlock), sep)
+		fmt.Fprintf(&sb, "  {| mm_pkg := %s; mm_type := %s; mm_method := %s; mm_touches := %s; mm_writes := %s; mm_lock := %s; mm_defer_unlock := %s; mm_reads_locked := %s; mm_writes_locked := %s |}%s\n",
+			coqString(m.Pkg), coqString(m.Type), coqString(m.Method), coqBool(m.Touches), coqBool(m.Writes), m.Lock, coqBool(m.DeferUnlock), coqBool(m.ReadsLocked), coqBool(m.WritesLocked), sep)
 	}
 	sb.WriteString("].\n\n")
 
@@ -1719,7 +1935,7 @@ func main() {
 	if *list {
 		fmt.Println("== mutex methods")
 		for _, m := range mms {
-			fmt.Printf("%-20s %-14s %-14s touches=%v writes=%v %s defer=%v\n", m.Pkg, m.Type, m.Method, m.Touches, m.Writes, m.Lock, m.DeferUnlock)
+			fmt.Printf("%-20s %-14s %-14s touches=%v writes=%v %s defer=%v readsLocked=%v writesLocked=%v\n", m.Pkg, m.Type, m.Method, m.Touches, m.Writes, m.Lock, m.DeferUnlock, m.ReadsLocked, m.WritesLocked)
 		}
 		fmt.Println("== global writes")
 		for _, w := range gws {
